@@ -331,7 +331,9 @@ def _csv_check(columns, rows, nullvalue):
 # amounts, positions, inventories (concrete values; the number formatting is beancount's)
 
 COST = position.Cost(D('100.00'), 'USD', datetime.date(2019, 1, 5), None)
-AMOUNT_ROWS = [A(D('1.50'), 'USD'), A(D('-1234.5'), 'USD'), A(D('200'), 'JPY'), A(D('0.001'), 'HOOL'), None]
+AMOUNT_ROWS = [A(D('1.50'), 'USD'), A(D('-1234.5'), 'USD'), A(D('200'), 'JPY'), A(D('0.001'), 'HOOL'), None,
+               # more digits than the ledger's display precision (USD: 2 places), one rounding up across a power of ten
+               A(D('10.1234'), 'USD'), A(D('9.9951'), 'USD')]
 
 
 def _inv(*items):
@@ -385,11 +387,16 @@ def _amount_like_check(kind, i, j, boxed, expand, nullvalue):
                 return 'null-placeholder'
             continue
         amounts = [v] if kind == 'amount' else ([v.units] if kind == 'position' else [p.units for p in v.get_positions()])
+        if kind == 'amount':
+            # shown at the ledger's display precision
+            if str(DCONTEXT.quantize(v.number, v.currency)) not in chunk.replace('|', ' ').split():
+                return 'amount-not-at-the-ledgers-display-precision'
         for a in amounts:
             if a.currency not in chunk:
                 return 'currency-not-shown'
             shown = DCONTEXT.build().format(a.number, a.currency) if False else None
-            digits = str(abs(a.number).quantize(D(1)) if a.number == a.number.to_integral_value() else abs(a.number))
+            shown_number = DCONTEXT.quantize(a.number, a.currency)     # (rounding may carry into the integer part)
+            digits = str(abs(shown_number).quantize(D(1)) if shown_number == shown_number.to_integral_value() else abs(shown_number))
             if digits.split('.')[0].lstrip('0') and digits.split('.')[0] not in chunk.replace(',', ''):
                 return 'number-not-shown'
     return 'ok'
@@ -403,7 +410,7 @@ def make_amount_like(kind):
           symbolic='(none)', enumerated='cells, options',
           params={'i': int, 'j': int, 'boxed': bool, 'expand': bool, 'nv': int}, group='C16.amount')
     def amount_like(i, j, boxed, expand, nv):
-        top = len(INVENTORIES) - 1 if kind == 'inventory' else 4
+        top = len(INVENTORIES) - 1 if kind == 'inventory' else len(AMOUNT_ROWS) - 1
         i, j = enum_int(i, 0, top), enum_int(j, 0, top)
         nullvalue = pick(NULLS, nv)
         try:
